@@ -74,6 +74,7 @@ type Verifier struct {
 	checkedNil  map[string]bool
 	assumeCount int
 	trustedUsed map[string]bool
+	measure0    string // termination measure at entry (functions with a decreases clause)
 }
 
 func (v *Verifier) unsupportedf(format string, args ...interface{}) {
@@ -190,6 +191,16 @@ func (v *Verifier) analyse() {
 			if ph, ok := in.(*ssa.Phi); ok {
 				li.phis = append(li.phis, ph)
 			}
+		}
+		if autos := v.autoInvariants(li); len(autos) > 0 {
+			if li.spec == nil {
+				li.spec = &LoopSpec{Binds: map[string]int{}}
+			} else {
+				cp := *li.spec
+				cp.Invariants = append([]*Clause(nil), li.spec.Invariants...)
+				li.spec = &cp
+			}
+			li.spec.Invariants = append(li.spec.Invariants, autos...)
 		}
 	}
 	v.dbg = debugNames(fn)
@@ -452,6 +463,7 @@ func (v *Verifier) run() (res *FuncResult) {
 		v.freeDeref[fv.Name()] = val
 	}
 	v.entry = st.snapshot()
+	v.assumeAxioms(st)
 	if v.contract != nil {
 		se := v.specEnv(st, v.baseVars(st))
 		se.old = nil
@@ -464,9 +476,99 @@ func (v *Verifier) run() (res *FuncResult) {
 			v.notes = append(v.notes, "assume "+a.Label+": "+a.Text)
 		}
 		v.emitCover(st, "pre", "true", "precondition is satisfiable")
+		if v.contract.Decreases != nil {
+			v.measure0 = se.eval(v.contract.Decreases.E).T
+		}
 	}
 	v.execBlock(v.fn.Blocks[0], nil, st)
 	return res
+}
+
+// assumeAxioms assumes the declared axioms (facts about package-level variables established by
+// package initialisation). They are listed as assumptions in the evidence.
+func (v *Verifier) assumeAxioms(st *State) {
+	for _, a := range v.prog.axioms {
+		func() {
+			defer func() {
+				if r := recover(); r != nil {
+					if _, ok := r.(specErr); ok {
+						return
+					}
+					panic(r)
+				}
+			}()
+			se := &SpecEnv{e: v.env, s: st, old: nil, vars: map[string]Value{}, pkg: a.Pkg, qn: &v.qn}
+			st.assume(se.evalBool(a.E))
+		}()
+	}
+}
+
+// autoInvariants: for range-index style counters (phi initialised with a constant and increased
+// by a positive constant on every back edge) the bounds "phi >= init" and, when the loop guard
+// is "phi + c < X" with X defined outside the loop, "phi < X" are added as checked invariants.
+func (v *Verifier) autoInvariants(li *loopInfo) []*Clause {
+	var out []*Clause
+	for i, ph := range li.phis {
+		if _, _, ok := intRange(ph.Type()); !ok {
+			continue
+		}
+		var init *ssa.Const
+		var step *ssa.BinOp
+		okPat := true
+		for j, e := range ph.Edges {
+			pred := li.head.Preds[j]
+			if !li.body[pred] {
+				c, isC := e.(*ssa.Const)
+				if !isC || c.Value == nil {
+					okPat = false
+					break
+				}
+				if init != nil && init.Value.ExactString() != c.Value.ExactString() {
+					okPat = false
+					break
+				}
+				init = c
+			} else {
+				bo, isB := e.(*ssa.BinOp)
+				if !isB || bo.Op != token.ADD {
+					okPat = false
+					break
+				}
+				cc, isC := bo.Y.(*ssa.Const)
+				if bo.X != ssa.Value(ph) || !isC || cc.Value == nil || constant.Sign(cc.Value) <= 0 {
+					okPat = false
+					break
+				}
+				step = bo
+			}
+		}
+		if !okPat || init == nil {
+			continue
+		}
+		idx := i
+		lit := bigLit(init.Value.ExactString())
+		out = append(out, &Clause{Label: fmt.Sprintf("auto%d.lo", i), Text: fmt.Sprintf("phi%d >= %s (inferred counter bound)", i, init.Value.ExactString()),
+			Raw: func(phis []Value, operand func(interface{}) string) string { return "(>= " + phis[idx].T + " " + lit + ")" }})
+		// guard of the form (phi + c) < X in the head block, X defined outside the loop
+		if step != nil && step.Block() == li.head {
+			if ifi, ok := li.head.Instrs[len(li.head.Instrs)-1].(*ssa.If); ok {
+				if cmp, ok := ifi.Cond.(*ssa.BinOp); ok && cmp.Op == token.LSS && cmp.X == ssa.Value(step) {
+					outside := true
+					if in, ok := cmp.Y.(ssa.Instruction); ok && in.Block() != nil && li.body[in.Block()] {
+						outside = false
+					}
+					if outside {
+						bound := cmp.Y
+						out = append(out, &Clause{Label: fmt.Sprintf("auto%d.hi", i), Text: fmt.Sprintf("phi%d < loop bound (inferred counter bound)", i),
+							Raw: func(phis []Value, operand func(interface{}) string) string {
+								return "(< " + phis[idx].T + " " + operand(bound) + ")"
+							}})
+					}
+				}
+			}
+		}
+	}
+	return out
 }
 
 // freshValue creates an unconstrained symbolic value of a Go type.
@@ -640,10 +742,15 @@ func (v *Verifier) loopEnter(li *loopInfo, st *State, phis []*ssa.Phi, vals []Va
 		}
 	}
 	lbl := fmt.Sprintf("%d", li.ordinal)
+	if st.loopEntry == nil {
+		st.loopEntry = map[int]*State{}
+	}
+	st.loopEntry[li.ordinal] = st.snapshot()
 	if li.spec != nil {
 		se := v.specEnv(st, v.loopVars(li, st, phis, vals))
+		se.loopSt = st.loopEntry[li.ordinal]
 		for _, inv := range li.spec.Invariants {
-			v.emit(st, "inv.init", lbl+"."+inv.Label, se.evalBool(inv.E), inv.Props, inv.Text, nil)
+			v.emit(st, "inv.init", lbl+"."+inv.Label, v.evalInv(se, st, inv, vals), inv.Props, inv.Text, nil)
 		}
 	}
 	// havoc everything the loop body may write
@@ -662,14 +769,22 @@ func (v *Verifier) loopEnter(li *loopInfo, st *State, phis []*ssa.Phi, vals []Va
 	}
 	if li.spec != nil {
 		se := v.specEnv(st, v.loopVars(li, st, phis, newVals))
+		se.loopSt = st.loopEntry[li.ordinal]
 		for _, inv := range li.spec.Invariants {
-			st.assume(se.evalBool(inv.E))
+			st.assume(v.evalInv(se, st, inv, newVals))
 		}
 		if li.spec.Decreases != nil {
 			m := se.eval(li.spec.Decreases.E)
 			st.measure[li.ordinal] = m.T
 		}
 	}
+}
+
+func (v *Verifier) evalInv(se *SpecEnv, st *State, inv *Clause, phis []Value) string {
+	if inv.Raw != nil {
+		return inv.Raw(phis, func(x interface{}) string { return v.operand(st, x.(ssa.Value)).T })
+	}
+	return se.evalBool(inv.E)
 }
 
 func phName(ph *ssa.Phi, i int) string {
@@ -688,8 +803,9 @@ func (v *Verifier) loopBack(li *loopInfo, st *State, phis []*ssa.Phi, vals []Val
 		return
 	}
 	se := v.specEnv(st, v.loopVars(li, st, phis, vals))
+	se.loopSt = st.loopEntry[li.ordinal]
 	for _, inv := range li.spec.Invariants {
-		v.emit(st, "inv.preserve", lbl+"."+inv.Label, se.evalBool(inv.E), inv.Props, inv.Text, nil)
+		v.emit(st, "inv.preserve", lbl+"."+inv.Label, v.evalInv(se, st, inv, vals), inv.Props, inv.Text, nil)
 	}
 	for _, f := range v.frameFormulas(st, true) {
 		v.emit(st, "frame.loop", lbl+"."+mangle(f.name), f.formula, nil, "loop "+lbl+": writes to "+f.name+" stay inside the modifies clause (or fresh objects)", nil)
@@ -1638,6 +1754,13 @@ func (v *Verifier) modSets(c *Contract, se *SpecEnv) (sets map[string][]string, 
 					}
 				}
 			}
+		case "fields":
+			obj := se.eval(m.E)
+			_, elemT, ok := isStructPtr(obj.GoT)
+			if !ok {
+				sfail("modifies fields(): not a struct pointer")
+			}
+			v.allFieldSets(elemT, obj.T, sets, sorts)
 		case "elems":
 			sl := se.eval(m.E)
 			elemT := sl.GoT.Underlying().(*types.Slice).Elem()
@@ -1714,6 +1837,21 @@ func (v *Verifier) modSets(c *Contract, se *SpecEnv) (sets map[string][]string, 
 		}
 	}
 	return
+}
+
+// allFieldSets adds every (flattened) field of the struct object ref to the modifies sets.
+func (v *Verifier) allFieldSets(structT types.Type, ref string, sets map[string][]string, sorts map[string]string) {
+	st := structT.Underlying().(*types.Struct)
+	for i := 0; i < st.NumFields(); i++ {
+		f := st.Field(i)
+		if _, isStruct := f.Type().Underlying().(*types.Struct); isStruct {
+			v.allFieldSets(f.Type(), v.env.embRef(structT, f.Name(), ref), sets, sorts)
+			continue
+		}
+		name := fieldMapName(structT, f.Name())
+		sets[name] = append(sets[name], ref)
+		sorts[name] = arr("Int", v.env.sr.sortOf(f.Type()))
+	}
 }
 
 func exprName(e Expr) string {
